@@ -153,6 +153,25 @@ def logProb (r : Rates α) (rem : Option (Nat → α)) (t : Nat → α) (m : Nat
         + Trans.log two * ofNat (tips.length - 1)
   surv + births + serial + crossing + rhoTerm + remTerm
 
+/-- `BirthDeath.log_prob` of `torchtree/evolution/birth_death.py` (constant rates; as repaired: a tip at the present is
+`rho`-sampled when `rho > 0`, every other tip `psi`-sampled): origin age `T`, ages `tips`, `ints` -/
+def logProbConst (lam mu psi rho T : α) (survival : Bool) (tips ints : List α) : α :=
+  let A := Trans.sqrt ((lam - mu - psi) * (lam - mu - psi) + four * lam * psi)
+  let B := ((1 - two * (1 - rho)) * lam + mu + psi) / A
+  let term := Trans.exp (A * T) * (1 + B)
+  let p := (lam + mu + psi - A * (term - (1 - B)) / (term + (1 - B))) / (two * lam)
+  let e := Trans.exp (-(A * T))
+  let first := Trans.log (four * e / ((e * (1 - B) + (1 + B)) * (e * (1 - B) + (1 + B))))
+  let surv := if survival then first - Trans.log (1 - p) else first
+  let births := sumList (ints.map fun h => Trans.log lam + logq A B (T - h) T)
+  let isRho := fun (h : α) => (h == 0) && decide (0 < rho)
+  let serial :=
+    if tips.any (fun h => !isRho h) then
+      sumList (tips.map fun h => if isRho h then 0 else Trans.log psi - logq A B (T - h) T)
+    else 0
+  let rhoT := sumList (tips.map fun h => if isRho h then Trans.log (if 0 < rho then rho else 1) else 0)
+  surv + births + serial + rhoT
+
 end Order
 
 /-! ## refining the epoch grid -/
